@@ -102,6 +102,8 @@ def designated : Field → List Lock
   | .per_ip_count => [.per_ip_connection_mutex]
   | .nnc => [.nnc_lock]
   | .reference_count => [.response_mutex]
+  | .resp_block => [.response_mutex]
+  | .resp_block_nocrc => []
   | .c_resuming | .c_suspended | .c_thread_joined | .urh_was_closed | .urh_clean_ready => [.cleanup_connection_mutex]
   | .eready_list | .eready_links => []
   | .conn_count => [.cleanup_connection_mutex]
@@ -122,6 +124,9 @@ def confined (en : Entry) (e : Ev) (f : Field) : Bool :=
 
 /-- initialisation of an object that no other thread can reach yet -/
 def freshObject (name : String) (f : Field) : Bool :=
+  (f == .resp_block &&
+    ["MHD_create_response_from_buffer_with_free_callback_cls", "MHD_create_response_from_iovec",
+     "MHD_create_response_from_callback"].contains name) ||
   (f == .reference_count &&
     ["MHD_create_response_from_callback", "MHD_create_response_from_buffer_with_free_callback_cls",
      "MHD_create_response_from_iovec", "MHD_create_response_empty", "MHD_create_response_for_upgrade"].contains name)
@@ -133,8 +138,15 @@ def freshObject (name : String) (f : Field) : Bool :=
 def underDesignated (en : Entry) (e : Ev) (f : Field) : Bool :=
   (designated f).any (fun l => (effMust en e).contains l)
 
+/-- the window (`data_start`, `data_size`) of a response's data block.  It changes only for a
+    response with a content reader, and for such a response the callers take `response->mutex`
+    under the guard `NULL != response->crc` — a *guarded* hold, visible in the may-set only.
+    Accesses under a `NULL == response->crc` guard (`resp_block_nocrc`) see an immutable buffer. -/
+def respBlockHeld (en : Entry) (e : Ev) (f : Field) : Bool :=
+  f == .resp_block_nocrc || (f == .resp_block && (effMay en e).contains .response_mutex)
+
 def protectedAcc (en : Entry) (e : Ev) (f : Field) : Bool :=
-  benign f || underDesignated en e f || confined en e f || freshObject en.name f
+  benign f || underDesignated en e f || confined en e f || freshObject en.name f || respBlockHeld en e f
 
 /-- the two flags that the unchanged tree reads / writes without their mutex outside the benign
     set (finding F18b): `connection->suspended` (reads only) and `urh->was_closed` -/
@@ -174,6 +186,7 @@ def detachedList (name : String) (f : Field) : Bool :=
     list, and (known finding F18b) `urh->was_closed`. -/
 def writeOk (en : Entry) (e : Ev) (f : Field) : Bool :=
   benign f || underDesignated en e f || freshObject en.name f || detachedList en.name f
+    || respBlockHeld en e f
     || (daemonOnlyField f && confined en e f) || en.role == Role.startup || f == .urh_was_closed
 
 def writesOk (t : List Entry) : Bool :=
@@ -181,6 +194,27 @@ def writesOk (t : List Entry) : Bool :=
     match e.kind with
     | .acc f true => writeOk en e f
     | _ => true))
+
+/-- the "new connection pending" flag changes only in the critical section that changes the
+    hand-over list: every write of `have_new` holds `new_connections_mutex` (so an
+    `MHD_add_connection` from another thread can never fall between detaching the list and
+    clearing the flag, which would lose the connection) -/
+def haveNewPairedOk (t : List Entry) : Bool :=
+  t.all (fun en => en.events.all (fun e =>
+    match e.kind with
+    | .acc .have_new true => (effMust en e).contains .new_connections_mutex || en.role == Role.startup
+    | _ => true))
+  && t.any (fun en => en.events.any (fun e => isAccHaveNewWrite e))
+where
+  isAccHaveNewWrite (e : Ev) : Bool := match e.kind with | .acc .have_new true => true | _ => false
+
+/-- every event loop that blocks after `resume_suspended_connections` lets the *result* of that
+    call force a zero timeout (a connection resumed from another thread waits for no socket
+    event; without this the resumed request would sleep until unrelated traffic arrives).
+    The function that runs only in thread-per-connection mode may discard the result: there the
+    connection's own thread is woken instead. -/
+def resumeTimeoutOk (sites : List (String × Nat × Bool × Bool)) : Bool :=
+  sites.all (fun s => s.2.2.1 || s.2.2.2) && decide (3 ≤ (sites.filter (fun s => s.2.2.2)).length)
 
 /-! ## application callbacks under a lock -/
 
